@@ -7,4 +7,8 @@ RRepeats == {33, 70}
 RFactors == {<<1, 2>>, <<2, 1>>}
 ROps == {"Add", "AddWithCount", "AddRepeat", "Merge", "CopyTo", "Clear", "Reweight", "EncDec", "Proto"}
 RInit == (1 :> NewStore("exact", 0)) @@ (2 :> NewStore("exact", 0)) @@ (3 :> NewStore("exact", 0))
+RSlotKeys == (1 :> {0, 1, 2, 3, 4}) @@ (2 :> {0, 1, 2, 3, 4}) @@ (3 :> {0, 1, 2, 3, 4})
+RAsc == {}
+RDesc == {}
+RPairs == {}
 ====
